@@ -23,6 +23,12 @@ Sub-checks
              oracles of `convert` / `merge` against the float64 copy of the values, plus: the result for the typed cores and the
              result for their float64 copy denote the same tensor (sum of the two bounds) and have the same ranks when nothing
              may be cut; merging integer QTT-cores is exact (derivation: comment above `prop_dtype`)
+    layout   memory layout of every array argument: index batches / single indices / bit strings (q 1..62), TT-cores and
+             QTT-cores handed over C-ordered, Fortran-ordered (np.asfortranarray), as a transposed view (np.array(cols).T), as
+             every other (third) row / column of a larger array, with negative strides, and in drawn combinations (memory
+             order of the axes x step per axis x offset) with the same logical contents: results as for the C-ordered copy
+             plus all oracles of `index` / `convert` / `merge` (details: comment above LAY_NAMED); `index` also runs every
+             block of the enumeration through four of these layouts
 
 Tolerance model of `convert` (derivation)
     core_tt_to_qtt factorises q matrices per core with matrix_svd (eigen-decomposition of B B^T or B^T B).  Each
@@ -77,7 +83,11 @@ RULE = ("index: exhaustive enumeration of all 2^(q*d) multi-indices for every (q
         "ranks 1..4 (QTT side 1..3), element type per core from int64 / int32 / int16 / float32 (all cores alike, or drawn per core "
         "incl. float64), values small integers -3..3, 0/1, 0..9, -9..9 (exactly representable in every type; integer Gram matrix "
         "and integer merge cannot overflow by construction) or Gaussian (floating types), accuracy / cap families of convert, "
-        "core-level arguments default / (e) / (e, r); non-trivial = q >= 2 and some integer core.")
+        "core-level arguments default / (e) / (e, r); non-trivial = q >= 2 and some integer core. layout: index part q 1..62, d 1..5, "
+        "1..6(12) rows, argument dtypes of deep; conversion part q 1..4(5), d 1..3, q*d <= 9(12), ranks 1..3, Gaussian or small-integer "
+        "cores, arguments default / (1e-6, 3) / (1e-10, 100) / (0, 1e12); every array in the 10 named layouts (C, F, T, rows2, cols2, "
+        "both2, neg0, neg1, negall, F_neg_strided) and 3(6) drawn ones (axis permutation of the buffer, step in {1, 2, 3, -1, -2} and "
+        "offset 0..2 per axis), skipped buffer elements filled with in-domain junk; non-trivial = index batch with >= 2 rows and d >= 2.")
 TOLERANCES = ("index maps: exact (compared as Python integers, for every q <= 62). consistency QTT vs qtt_to_tt(QTT): 2*32*(dq+sum r+2)*eps*E(|cores|) elementwise (== for "
               "small-integer cores). accuracy per core: 1.001*(sqrt(q)*e + q*4*S*sqrt(eps)*||G||_F) in regime T (e >= 100x that floor), "
               "1.001*(sqrt(q)*e + q*64*S*eps*||G||_F) in regime L (well-conditioned core, nothing cut), S = n*max(r1,r2) "
@@ -86,7 +96,10 @@ TOLERANCES = ("index maps: exact (compared as Python integers, for every q <= 62
               "the two accuracy bounds (no bit-for-bit claim on floats); optima_qtt: returned values vs own dense entry within "
               "2*K*eps*E(|cores|). dtype: integer cores = the float64 bounds on the float64 copy; float32 cores = the same formulas with "
               "eps32 = 2^-23, regime L from sigma_min(unfoldings) >= 32*q*sqrt(S*eps32)*||G||_F (observed error <= 0.006 of the bound); "
-              "typed vs float64 copy: sum of the two bounds; merge of integer-valued cores: == (rounding bound with eps32 / eps otherwise)")
+              "typed vs float64 copy: sum of the two bounds; merge of integer-valued cores: == (rounding bound with eps32 / eps otherwise). "
+              "layout: index maps ==; merge / get_many of small-integer cores == and of Gaussian cores within 2x the elementwise abs-majorant "
+              "rounding bound of the C-ordered result (no bit-for-bit claim on floats across stride patterns); core_tt_to_qtt / tt_to_qtt: "
+              "the accuracy bounds of convert per layout, layout vs C-ordered copy within the sum of the two bounds, equal ranks in regime L")
 ASSUMPTIONS = ["TT side d >= 1 is evaluated with the harness' own dense chain; teneva.get_many is only called on tensors with >= 2 cores",
                "q >= 1 (mode size 1 = 2^0 is outside the quantifier)",
                "index maps: 1 <= q <= 62. The maps work on NumPy's default integer (signed 64-bit here): n = 2^q and every index "
@@ -102,6 +115,8 @@ ASSUMPTIONS = ["TT side d >= 1 is evaluated with the harness' own dense chain; t
                "merge fit the type) and float32. bool, int8, uint8 and float16 cores are outside the quantifier: on the unmodified "
                "library bool cores are multiplied with logical or/and (A @ A.T and tensordot of bool arrays), 8-bit Gram matrices wrap "
                "around, float16 is rejected by numpy.linalg (TypeError)",
+               "layout: array arguments are ndarrays of any strides (positive, negative, non-contiguous; no zero strides / broadcast views, "
+               "no read-only flag, no ndarray subclasses), element types as in deep (index arrays) and float64 (cores)",
                "NumPy/LAPACK reference arithmetic is correct"]
 
 SQ = math.sqrt(EPS)
@@ -205,6 +220,18 @@ def prop_index(case, ctx):
     ctx.check(is_int_array(g1, (1, d * q)) and bool(np.all(g1 == B[:1])), "ind_tt_to_qtt(batch of one) is not of shape [1, d*q]")
     b1 = ctx.lib(teneva.ind_qtt_to_tt, B[:1].copy(), q)
     ctx.check(is_int_array(b1, (1, d)) and bool(np.all(b1 == I[:1])), "ind_qtt_to_tt(batch of one) is not of shape [1, d]")
+
+    # the same batch in other memory layouts (Fortran order, transposed view, every other row / column of a larger array with
+    # reversed axes); the skipped elements of the buffer hold valid indices / bits (section "memory layout" below)
+    for spec in ("F", "T", "both2", "F_neg_strided"):
+        Il = relayout(I, spec, lambda sh: (np.arange(int(np.prod(sh)), dtype=np.int64).reshape(sh) * 7 + lo + 3) % n)
+        gl = ctx.lib(teneva.ind_tt_to_qtt, Il, n)
+        ctx.check(is_int_array(gl, (m, d * q)) and bool(np.all(gl == B)), "ind_tt_to_qtt(batch) depends on the memory layout of the batch",
+                  layout=spec, strides=Il.strides, first_bad=_first_bad(gl, B, I, gl) if is_int_array(gl, (m, d * q)) else None)
+        Bl = relayout(B, spec, lambda sh: (np.arange(int(np.prod(sh)), dtype=np.int64).reshape(sh) // 3 + lo) % 2)
+        bl = ctx.lib(teneva.ind_qtt_to_tt, Bl, q)
+        ctx.check(is_int_array(bl, (m, d)) and bool(np.all(bl == I)), "ind_qtt_to_tt(batch) depends on the memory layout of the batch",
+                  layout=spec, strides=Bl.strides, first_bad=_first_bad(bl, I, I, B) if is_int_array(bl, (m, d)) else None)
 
     # single spelling for every index (alternating ndarray / list arguments)
     for t in range(m):
@@ -1206,10 +1233,12 @@ def hist_data(case, n, var, store):
     return store[key]
 
 
-def check_core_call(ctx, G, q, args, what):
-    """core_tt_to_qtt(G, *args) -> (merged core, accuracy bound or None); shape, rank chain, cap, accuracy."""
+def check_core_call(ctx, G, q, args, what, as_is=False):
+    """core_tt_to_qtt(G, *args) -> (merged core, accuracy bound or None); shape, rank chain, cap, accuracy.
+
+    as_is: hand G itself to the library (ndarray.copy() returns a C-ordered array, i.e. drops the memory layout of G)."""
     e, r = (0.0, 1.E+12) if not args else args
-    Q = ctx.lib(teneva.core_tt_to_qtt, G.copy(), *args)
+    Q = ctx.lib(teneva.core_tt_to_qtt, G if as_is else G.copy(), *args)
     ctx.check(isinstance(Q, list) and len(Q) == q and all(isinstance(c, np.ndarray) and c.ndim == 3 and c.shape[1] == 2 for c in Q),
               f"{what}: not a list of q cores with mode size 2", got=[getattr(c, "shape", None) for c in Q] if isinstance(Q, list) else None)
     ctx.check(Q[0].shape[0] == G.shape[0] and Q[-1].shape[2] == G.shape[2] and all(Q[j].shape[2] == Q[j + 1].shape[0] for j in range(q - 1)),
@@ -1358,6 +1387,344 @@ def _history_reject(ctx, f, n, sp, d, Y, I, Ym):
             ctx.raises(ValueError, teneva.optima_qtt, [G.copy() for G in Ym])
 
 
+# ------------------------------------------------------------------------------------------- memory layout of array arguments
+#
+# An ndarray argument is its shape, element type and LOGICAL contents a[i, j, ...]; the strides (C / Fortran order, a
+# transposed view, every other row / column of a larger array, reversed axes) are a storage detail that no docstring
+# mentions and that the property does not quantify away: "for single indices and batches alike", "a TT-tensor is a list
+# of 3-dimensional arrays".  Every routine of this property that takes an array must therefore give, for every layout of
+# the same logical contents, the result it gives for the C-ordered copy:
+#   * index maps: == (integers), for batches and single indices;
+#   * core_qtt_to_tt / qtt_to_tt / get_many on integer-valued cores: == (every partial sum is an exactly representable
+#     integer, so the summation order that BLAS / einsum choose for a given stride pattern cannot matter);
+#   * on Gaussian cores: elementwise within the abs-majorant rounding bound of `merge` (both results are roundings of the
+#     same exact value; no bit-for-bit claim, BLAS may pick a different kernel for different strides);
+#   * core_tt_to_qtt / tt_to_qtt: every state-independent oracle of `convert` / `history` (shape, rank chain, cap, accuracy),
+#     the merged results for the layout and for the C-ordered copy within the sum of the two accuracy bounds, and equal ranks
+#     when nothing may be cut (regime L, cap cannot bind).
+# The elements of the underlying buffer that do not belong to the view (the skipped rows / columns) are filled with
+# in-domain junk (valid indices, bits, core entries of the same magnitude), so that an implementation which reads the
+# buffer in memory order returns wrong numbers rather than raising.
+
+LAY_NAMED = ("C", "F", "T", "rows2", "cols2", "both2", "neg0", "neg1", "negall", "F_neg_strided")
+LAY_STEPS = (1, 1, 2, 3, -1, -2)
+
+
+def _perms(k):
+    import itertools
+    return [list(p) for p in itertools.permutations(range(k))]
+
+
+def lay_spec(name, ndim):
+    """Named layout -> {"perm": memory order of the axes (slowest first), "steps": stride factor per axis, "offs": offsets}."""
+    c, f = list(range(ndim)), list(range(ndim))[::-1]
+    one, zero = [1] * ndim, [0] * ndim
+    last = min(1, ndim - 1)
+    if name == "rows2":
+        return {"perm": c, "steps": [2] + one[1:], "offs": [1] + zero[1:]}
+    if name == "cols2":
+        st_ = list(one)
+        st_[last] = 2
+        return {"perm": c, "steps": st_, "offs": zero}
+    if name == "both2":
+        return {"perm": c, "steps": [2] * ndim, "offs": [1] * ndim}
+    if name == "neg0":
+        return {"perm": c, "steps": [-1] + one[1:], "offs": zero}
+    if name == "neg1":
+        st_ = list(one)
+        st_[last] = -1
+        return {"perm": c, "steps": st_, "offs": zero}
+    if name == "negall":
+        return {"perm": c, "steps": [-1] * ndim, "offs": zero}
+    if name == "F_neg_strided":
+        return {"perm": f, "steps": ([-2, 2, -1] * ndim)[:ndim], "offs": [1] * ndim}
+    raise ValueError(name)
+
+
+@st.composite
+def lay_specs(draw, ndim):
+    """A named layout or a drawn one (memory order of the axes, step and offset per axis)."""
+    if draw(st.integers(0, 2)) == 0:
+        return draw(st.sampled_from(LAY_NAMED))
+    return {"perm": draw(st.sampled_from(_perms(ndim))), "steps": [draw(st.sampled_from(LAY_STEPS)) for _ in range(ndim)],
+            "offs": [draw(st.integers(0, 2)) for _ in range(ndim)]}
+
+
+def relayout(A, spec, junk):
+    """The array A (any layout) as an array with the same shape, dtype and logical contents in the memory layout `spec`.
+
+    junk(shape) -> array of in-domain filler for the elements of the buffer that the view skips."""
+    A = np.asarray(A)
+    C = np.ascontiguousarray(A).copy()
+    if spec == "C":
+        out = C
+    elif spec == "F":
+        out = np.asfortranarray(C)
+    elif spec == "T":                                            # np.array(cols).T: a transposed view of a C-ordered array
+        out = np.array([np.array(c) for c in C.T]).T if C.ndim >= 2 else C[::-1].copy()[::-1]
+    else:
+        if isinstance(spec, str):
+            spec = lay_spec(spec, C.ndim)
+        perm, steps, offs = spec["perm"], spec["steps"], spec["offs"]
+        big_shape = [abs(steps[a]) * C.shape[a] + offs[a] for a in range(C.ndim)]
+        buf = np.ascontiguousarray(np.asarray(junk([big_shape[a] for a in perm])).astype(C.dtype))
+        big = buf.transpose(np.argsort(perm))                    # axis a of `big` is axis perm.index(a) of the C-ordered buffer
+        sl = []
+        for a in range(C.ndim):
+            k, o, L = steps[a], offs[a], C.shape[a]
+            sl.append(slice(o, o + k * L, k) if k > 0 else slice(o + (-k) * (L - 1), None if o == 0 else o - 1, k))
+        out = big[tuple(sl)]
+        if out.shape != C.shape:
+            raise harness.core.OracleFailure("internal: relayout produced a wrong shape", {"got": out.shape, "ref": C.shape, "spec": spec})
+        out[...] = C
+    if out.shape != C.shape or out.dtype != C.dtype or not np.array_equal(out, C):
+        raise harness.core.OracleFailure("internal: relayout changed the logical contents", {"spec": spec})
+    return out
+
+
+def lay_kind(x):
+    if x.ndim >= 2 and x.flags.c_contiguous and x.flags.f_contiguous:
+        return "lay:both_C_and_F"
+    if x.flags.c_contiguous:
+        return "lay:C"
+    if x.flags.f_contiguous:
+        return "lay:F"
+    return "lay:negative_stride" if any(s < 0 for s in x.strides) else "lay:non_contiguous"
+
+
+def lay_sizes(tier):
+    return dict(q_max=4, qd_max=9, m_max=6, extra=3) if tier == "quick" else dict(q_max=5, qd_max=12, m_max=12, extra=6)
+
+
+@st.composite
+def layout_cases(draw, tier):
+    sz = lay_sizes(tier)
+    # index maps: any quantisation level the maps serve
+    qi = draw(st.one_of(st.integers(1, 6), st.integers(1, Q_MAX), st.sampled_from(DEEP_Q_EDGES)))
+    di = draw(st.sampled_from([1, 2, 2, 3, 3, 4, 5]))
+    mi = draw(st.integers(1, sz["m_max"]))
+    fit = [t for t, bits in (("int64", 63), ("int32", 31), ("uint32", 32), ("int16", 15), ("uint8", 8)) if qi <= bits]
+    # conversions
+    q = draw(st.integers(1, sz["q_max"]))
+    d = draw(st.integers(1, max(1, min(3, sz["qd_max"] // q))))
+    r = [1] + [draw(st.integers(1, 3)) for _ in range(d - 1)] + [1]
+    rz = [1] + [draw(st.integers(1, 3)) for _ in range(q * d - 1)] + [1]
+    k = sz["extra"]
+    return {"qi": qi, "di": di, "mi": mi, "i_dtype": draw(st.sampled_from(["int64", "int64"] + fit)),
+            "b_dtype": draw(st.sampled_from(["int64", "int64", "int32", "int8", "uint8"])),
+            "lay2": [draw(lay_specs(2)) for _ in range(k)], "lay1": [draw(lay_specs(1)) for _ in range(k)],
+            "q": q, "d": d, "r": r, "rz": rz, "m": draw(st.integers(2, sz["m_max"])),
+            "vfam": draw(st.sampled_from(["gauss", "gauss", "smallint"])), "zfam": draw(st.sampled_from(["gauss", "smallint", "smallint"])),
+            "args": draw(st.sampled_from([[], [], [1.E-6, 3], [1.E-10, 100], [0.0, 1.E+12]])),
+            "lay3": [draw(lay_specs(3)) for _ in range(k)],
+            "lay_Y": [[draw(lay_specs(3)) for _ in range(d)] for _ in range(2)],
+            "lay_Z": [[draw(lay_specs(3)) for _ in range(q * d)] for _ in range(2)],
+            "seed": draw(gen.seeds)}
+
+
+def _spec_name(spec):
+    return spec if isinstance(spec, str) else "perm%s/steps%s/offs%s" % ("".join(map(str, spec["perm"])), spec["steps"], spec["offs"])
+
+
+def prop_layout(case, ctx):
+    _guard_memory()                                              # index part: q up to 62, as in `deep`
+    rng = np.random.default_rng(case["seed"])
+    ctx.nontrivial(case["di"] >= 2 and case["mi"] >= 2)
+    n_calls = _layout_index(case, ctx, rng)
+    n_calls += _layout_convert(case, ctx, rng)
+    ctx.inner(n_calls - 1)
+
+
+def _layout_index(case, ctx, rng):
+    q, d, m = case["qi"], case["di"], case["mi"]
+    n = 1 << q
+    I = rng.integers(0, n, size=(m, d), dtype=np.int64)
+    I[rng.integers(0, m), :] = n - 1 - rng.integers(0, min(n, 3), size=d)     # a row at the top of the range
+    I = I.astype(case["i_dtype"])
+    B = own_bits(I, q)
+    ctx.check(bool(np.all(own_unbits(B, q) == I.astype(np.int64))), "internal: shift/mask reference is not self-consistent")
+    Bd = B.astype(case["b_dtype"])
+    ctx.label("ind:q<=12" if q <= 12 else "ind:q13..31" if q <= 31 else "ind:q32..62", f"ind:d={d}", "ind:m=1" if m == 1 else "ind:m>=2",
+              "I:" + case["i_dtype"], "bits:" + case["b_dtype"])
+    junk_i = lambda sh: rng.integers(0, n, size=sh, dtype=np.int64)
+    junk_b = lambda sh: rng.integers(0, 2, size=sh, dtype=np.int64)
+    ref_f = ctx.lib(teneva.ind_tt_to_qtt, np.ascontiguousarray(I).copy(), n)
+    ref_b = ctx.lib(teneva.ind_qtt_to_tt, np.ascontiguousarray(Bd).copy(), q)
+    ctx.check(is_int_array(ref_f, (m, d * q)) and bool(np.all(ref_f == B)), "ind_tt_to_qtt(C-ordered batch) differs from shift/mask bits", q=q, d=d)
+    ctx.check(is_int_array(ref_b, (m, d)) and bool(np.all(ref_b == I)), "ind_qtt_to_tt(C-ordered batch) is not sum b_j 2^j", q=q, d=d)
+    calls = 2
+    for spec in list(LAY_NAMED) + case["lay2"]:
+        name = _spec_name(spec)
+        Il, Bl = relayout(I, spec, junk_i), relayout(Bd, spec, junk_b)
+        ctx.label(lay_kind(Il))
+        where = dict(layout=name, q=q, d=d, m=m, strides_I=Il.strides, strides_B=Bl.strides, flags_I=lay_kind(Il))
+        got = ctx.lib(teneva.ind_tt_to_qtt, Il, n)
+        ctx.check(is_int_array(got, (m, d * q)), "ind_tt_to_qtt(batch in another memory layout): not an integer ndarray of shape [samples, d*q]",
+                  shape=getattr(got, "shape", None), **where)
+        ctx.check(bool(np.all(got == ref_f)), "ind_tt_to_qtt(batch) depends on the memory layout of the batch (differs from the result for the C-ordered copy)",
+                  first_bad=_first_bad(got, ref_f, I, got), **where)
+        ctx.check(bool(np.all(got == B)), "ind_tt_to_qtt(batch in another memory layout) differs from shift/mask bits", first_bad=_first_bad(got, B, I, got), **where)
+        back = ctx.lib(teneva.ind_qtt_to_tt, Bl, q)
+        ctx.check(is_int_array(back, (m, d)), "ind_qtt_to_tt(batch in another memory layout): not an integer ndarray of shape [samples, d]",
+                  shape=getattr(back, "shape", None), **where)
+        ctx.check(bool(np.all(back == ref_b)), "ind_qtt_to_tt(batch) depends on the memory layout of the batch (differs from the result for the C-ordered copy)",
+                  first_bad=_first_bad(back, ref_b, I, B), **where)
+        ctx.check(bool(np.all(back == I)), "ind_qtt_to_tt(batch in another memory layout) is not sum b_j 2^j", first_bad=_first_bad(back, I, I, B), **where)
+        # compositions: the output of one map for a laid-out argument, itself laid out, through the other map
+        rt = ctx.lib(teneva.ind_qtt_to_tt, relayout(got, spec, junk_b), q)
+        ctx.check(is_int_array(rt, (m, d)) and bool(np.all(rt == I)), "ind_qtt_to_tt(ind_tt_to_qtt(I)) != I for a batch in another memory layout", **where)
+        rt = ctx.lib(teneva.ind_tt_to_qtt, relayout(back, spec, junk_i), n)
+        ctx.check(is_int_array(rt, (m, d * q)) and bool(np.all(rt == B)), "ind_tt_to_qtt(ind_qtt_to_tt(B)) != B for a batch in another memory layout", **where)
+        ctx.check(bool(np.array_equal(Il, I)) and bool(np.array_equal(Bl, Bd)), "internal: argument changed")
+        calls += 4
+    # single indices: rows of laid-out batches (strided 1-D views) and laid-out 1-D arrays
+    for j, spec in enumerate(["neg0", "rows2", "F_neg_strided", "F"] + case["lay1"]):
+        t = j % m
+        if j < 4:
+            i1, b1 = relayout(I, spec, junk_i)[t], relayout(Bd, spec, junk_b)[t]
+        else:
+            i1, b1 = relayout(I[t], spec, junk_i), relayout(Bd[t], spec, junk_b)
+        where = dict(layout=_spec_name(spec), q=q, d=d, i=I[t], strides_i=i1.strides, strides_b=b1.strides)
+        s = ctx.lib(teneva.ind_tt_to_qtt, i1, n)
+        ctx.check(is_int_array(s, (d * q,)) and bool(np.all(s == B[t])), "ind_tt_to_qtt(single index as a strided view) differs from the batch result", got=s, ref=B[t], **where)
+        s = ctx.lib(teneva.ind_qtt_to_tt, b1, q)
+        ctx.check(is_int_array(s, (d,)) and bool(np.all(s == I[t])), "ind_qtt_to_tt(single index as a strided view) differs from the batch result", got=s, ref=I[t], **where)
+        calls += 2
+    return calls
+
+
+def _rounding_tol(Zs, eps=EPS):
+    """Elementwise bound for core_qtt_to_tt(Zs) computed in any summation order (abs-majorant, constant of `dtype`)."""
+    A = np.abs(Zs[0])
+    for c in Zs[1:]:
+        A = np.reshape(np.tensordot(A, np.abs(c), 1), (A.shape[0], -1, c.shape[2]), order='F')
+    return 2 * 32.0 * (len(Zs) + sum(c.shape[2] for c in Zs) + 2) * eps * A
+
+
+def _layout_convert(case, ctx, rng):
+    q, d, r_tt, rz, m = case["q"], case["d"], case["r"], case["rz"], case["m"]
+    n = 2 ** q
+    L = q * d
+    args = tuple(case["args"])
+    e_core, r_core = (0.0, 1.E+12) if not args else args
+    e_tt, r_tt_cap = (1.E-12, 100) if not args else args
+    vals = (lambda sh: rng.normal(size=sh)) if case["vfam"] == "gauss" else (lambda sh: rng.integers(-3, 4, size=sh).astype(float))
+    zvals = (lambda sh: rng.normal(size=sh)) if case["zfam"] == "gauss" else (lambda sh: rng.integers(-3, 4, size=sh).astype(float))
+    Y = [vals((r_tt[k], n, r_tt[k + 1])) for k in range(d)]
+    Zq = [zvals((rz[k], 2, rz[k + 1])) for k in range(L)]
+    ctx.label(f"q={q}", f"d={d}", "values:" + case["vfam"], "qtt_values:" + case["zfam"], "args:" + ("default" if not args else str(list(args))))
+    calls = 0
+
+    # ---- core_tt_to_qtt: every core, named and drawn layouts
+    for k in range(d):
+        G = Y[k]
+        H0, b0 = check_core_call(ctx, G, q, args, f"core_tt_to_qtt(C-ordered core {k})")
+        Q0 = ctx.lib(teneva.core_tt_to_qtt, G.copy(), *args)
+        reg = core_model(G, q, e_core)
+        free = reg[0] == "L" and int(r_core) >= reg[2]
+        ctx.label("core_accuracy_claimed" if b0 is not None else "core_accuracy_not_claimed")
+        specs = [s for s in LAY_NAMED if s != "C"] + case["lay3"]
+        for spec in (specs if k == 0 else specs[k::d] + case["lay3"][:1]):
+            Gl = relayout(G, spec, vals)
+            ctx.label(lay_kind(Gl))
+            what = f"core_tt_to_qtt(core {k} of shape {G.shape} in layout {_spec_name(spec)}, strides {Gl.strides})"
+            H, b = check_core_call(ctx, Gl, q, args, what, as_is=True)
+            calls += 1
+            if b is not None and b0 is not None:
+                ctx.check(fro(H - H0) <= b + b0, f"{what}: the merged result differs from the merged result for the C-ordered copy of the core",
+                          diff=fro(H - H0), tol=b + b0, norm=fro(G))
+            if free:
+                Ql = ctx.lib(teneva.core_tt_to_qtt, Gl, *args)
+                ctx.check([c.shape for c in Ql] == [c.shape for c in Q0], f"{what}: ranks differ from the ranks for the C-ordered copy although nothing may be cut",
+                          got=[c.shape for c in Ql], ref=[c.shape for c in Q0])
+            ctx.check(bool(np.array_equal(Gl, G)), "internal: argument changed")
+
+    # ---- tt_to_qtt: cores in drawn layouts (and all Fortran-ordered / all transposed)
+    Z0 = ctx.lib(teneva.tt_to_qtt, [G.copy() for G in Y], *args)
+    D0, tol0 = check_tt_call(ctx, Y, Z0, q, e_tt, r_tt_cap, "tt_to_qtt(C-ordered cores)")
+    models = [core_model(G, q, e_tt) for G in Y]
+    free = all(mm[0] == "L" for mm in models) and int(r_tt_cap) >= max(mm[2] for mm in models)
+    ctx.label("tt_accuracy_claimed" if tol0 is not None else "tt_accuracy_not_claimed")
+    F = dense(Y)
+    for lays in [["F"] * d, ["T"] * d, ["F_neg_strided"] * d] + case["lay_Y"]:
+        Yl = [relayout(Y[k], lays[k], vals) for k in range(d)]
+        what = f"tt_to_qtt(cores in layouts {[_spec_name(s) for s in lays]})"
+        Zl = ctx.lib(teneva.tt_to_qtt, Yl, *args)
+        calls += 1
+        Dl, tol = check_tt_call(ctx, Y, Zl, q, e_tt, r_tt_cap, what)
+        if tol is not None and tol0 is not None:
+            ctx.check(fro(Dl - D0) <= tol + tol0, f"{what}: denotes a different tensor than the result for the C-ordered copies",
+                      diff=fro(Dl - D0), tol=tol + tol0, norm=fro(F))
+        if free:
+            ctx.check(ranks_of(Zl) == ranks_of(Z0), f"{what}: ranks differ from the ranks for the C-ordered copies although nothing may be cut",
+                      got=ranks_of(Zl), ref=ranks_of(Z0))
+
+    # ---- core_qtt_to_tt / qtt_to_tt: QTT-cores in layouts
+    ex = case["zfam"] == "smallint"                              # |entries| <= 3, ranks <= 3: every partial sum is an integer < 2^53
+    ref = group(dense(Zq), q, d)
+    tolq = 2 * K_of(Zq, extra=2) * EPS * group(dense_abs(Zq), q, d)
+    T0 = ctx.lib(teneva.qtt_to_tt, [G.copy() for G in Zq], q)
+    why = oracle.wellformed(T0, [n] * d, finite=True)
+    ctx.check(why is None, f"qtt_to_tt(C-ordered cores): not a well-formed finite TT-tensor of shape [2^q]*d: {why}")
+    _close(ctx, dense(T0), ref, tolq, "entry of qtt_to_tt(Z) at I vs entry of Z at the little-endian bits of I", ex)
+    for lays in [["F"] * L, ["T"] * L, ["negall"] * L, ["F_neg_strided"] * L] + case["lay_Z"]:
+        Zl = [relayout(Zq[k], lays[k], zvals) for k in range(L)]
+        ctx.label(*sorted({lay_kind(c) for c in Zl}))
+        names = [_spec_name(s) for s in lays]
+        Tl = ctx.lib(teneva.qtt_to_tt, Zl, q)
+        calls += 1
+        why = oracle.wellformed(Tl, [n] * d, finite=True)
+        ctx.check(why is None, f"qtt_to_tt(QTT-cores in other memory layouts): not a well-formed finite TT-tensor of shape [2^q]*d: {why}", layouts=names)
+        ctx.check(ranks_of(Tl) == [rz[k * q] for k in range(d + 1)], "qtt_to_tt(QTT-cores in other memory layouts): TT-ranks are not the QTT bonds between the modes",
+                  got=ranks_of(Tl), qtt_ranks=rz, layouts=names)
+        _close(ctx, dense(Tl), ref, tolq, "entry of qtt_to_tt(Z) at I vs entry of Z at the little-endian bits of I, QTT-cores in other memory layouts", ex, layouts=names)
+        for k in range(d):
+            tl = _rounding_tol(Zq[k * q:(k + 1) * q])
+            _close(ctx, Tl[k], T0[k], 2 * tl, "qtt_to_tt: core depends on the memory layout of the QTT-cores (vs the result for the C-ordered copies)", ex, k=k, layouts=names)
+            H = ctx.lib(teneva.core_qtt_to_tt, Zl[k * q:(k + 1) * q])
+            calls += 1
+            ctx.check(isinstance(H, np.ndarray) and H.shape == (rz[k * q], n, rz[(k + 1) * q]), "core_qtt_to_tt(QTT-cores in other memory layouts): shape is not q_0 x 2^q x q_q",
+                      got=getattr(H, "shape", None), layouts=names[k * q:(k + 1) * q])
+            _close(ctx, H, T0[k], 2 * tl, "core_qtt_to_tt depends on the memory layout of the QTT-cores (vs the result for the C-ordered copies)", ex, k=k, layouts=names[k * q:(k + 1) * q])
+        ctx.check(all(np.array_equal(a, b) for a, b in zip(Zl, Zq)), "internal: argument changed")
+
+    # ---- entries at the binary expansion: multi-indices, bit strings and cores in layouts
+    if L >= 2:
+        I = rng.integers(0, n, size=(m, d), dtype=np.int64)
+        I[0, :] = n - 1
+        B = own_bits(I, q)
+        idx = tuple(I.T)
+        junk_i = lambda sh: rng.integers(0, n, size=sh, dtype=np.int64)
+        junk_b = lambda sh: rng.integers(0, 2, size=sh, dtype=np.int64)
+        DZq = dense(Zq)
+        refq = DZq[tuple(B.T)]
+        tq = tolq[idx]
+        tz = 2 * K_of(Z0, extra=2) * EPS * group(dense_abs(Z0), q, d)[idx]
+        for j, spec in enumerate(["F", "T", "both2", "negall", "F_neg_strided"] + case["lay2"]):
+            name = _spec_name(spec)
+            Il = relayout(I, spec, junk_i)
+            Bt = ctx.lib(teneva.ind_tt_to_qtt, Il, n)
+            ctx.check(is_int_array(Bt, (m, L)) and bool(np.all(Bt == B)), "ind_tt_to_qtt(batch in another memory layout) differs from shift/mask bits",
+                      layout=name, strides=Il.strides, first_bad=_first_bad(Bt, B, I, Bt) if is_int_array(Bt, (m, L)) else None)
+            Bl = relayout(Bt, spec, junk_b)
+            Zl = [relayout(Zq[k], case["lay_Z"][j % 2][k], zvals) for k in range(L)]
+            v = np.asarray(ctx.lib(teneva.get_many, Zl, Bl), dtype=float)
+            _close(ctx, v, refq, tq, "get_many(Z, ind_tt_to_qtt(I)), arguments in other memory layouts, vs own entry of Z at the bits of I", ex, layout=name)
+            v = np.asarray(ctx.lib(teneva.get_many, Z0, Bl), dtype=float)
+            _close(ctx, v, D0[idx], tz, "get_many(tt_to_qtt(Y), ind_tt_to_qtt(I)), index arrays in other memory layouts, vs own entry of the QTT-tensor", layout=name)
+            if tol0 is not None:
+                err = fro(v - F[idx])
+                ctx.check(err <= tol0 + fro(tz), "entries of tt_to_qtt(Y) at ind_tt_to_qtt(I) (I in another memory layout) differ from the entries of Y at I",
+                          err=err, tol=tol0, layout=name, strides=Il.strides)
+            It = ctx.lib(teneva.ind_qtt_to_tt, Bl, q)
+            ctx.check(is_int_array(It, (m, d)) and bool(np.all(It == I)), "ind_qtt_to_tt(bits in another memory layout) is not sum b_j 2^j", layout=name, strides=Bl.strides)
+            if d >= 2:
+                v = np.asarray(ctx.lib(teneva.get_many, T0, relayout(It, spec, junk_i)), dtype=float)
+                _close(ctx, v, refq, tq, "entry of qtt_to_tt(Z) at ind_qtt_to_tt(B) (arrays in other memory layouts) vs entry of Z at B", ex, layout=name)
+            calls += 5
+    return calls
+
+
 SUBCHECKS = [
     Sub("index", prop_index, enumerate=index_blocks, exhaustive=True),
     Sub("convert", prop_convert, strategy=convert_cases, quick=400, thorough=4000),
@@ -1367,4 +1734,5 @@ SUBCHECKS = [
     Sub("deep", prop_deep, strategy=deep_cases, quick=120, thorough=1500),
     Sub("history", prop_history, strategy=history_cases, quick=40, thorough=600),
     Sub("dtype", prop_dtype, strategy=dtype_cases, quick=120, thorough=1500),
+    Sub("layout", prop_layout, strategy=layout_cases, quick=60, thorough=600),
 ]
